@@ -35,7 +35,8 @@ INDEX = os.path.join(VERIF, "selftest", "index.json")
 def _run(prop: str, repo: str, tier: str) -> tuple[int, set[str]]:
     evdir = os.path.join(repo, "_evidence")
     os.makedirs(evdir, exist_ok=True)
-    env = dict(os.environ, VERIF_EVIDENCE_DIR=evdir, VERIF_SELFTEST="0")
+    # (sub-runs execute 8 at a time: 3 emission workers each keep the 16 cores busy without oversubscribing them)
+    env = dict(os.environ, VERIF_EVIDENCE_DIR=evdir, VERIF_SELFTEST="0", VERIF_WORKERS=os.environ.get("VERIF_SELFTEST_WORKERS", "3"))
     p = subprocess.run([sys.executable, os.path.join(VERIF, "check.py"), prop, "--repo", repo, "--tier", tier], capture_output=True, text=True, env=env, cwd=VERIF)
     keys = set()
     try:
@@ -130,7 +131,11 @@ def selftest(prop: str, repo: str, base: set[str], read_set: set[str] | None = N
         futs = [ex.submit(_variant, prop, repo, tag, os.path.join(VERIF, v["patch"]), bool(v.get("reverse")), base) for tag, v in todo]
         tw = ex.submit(_twin, prop, repo, base)
         rfdir = os.path.join(VERIF, "selftest", "refactors")
-        rfs = [ex.submit(_refactor, prop, repo, f[:-5], os.path.join(rfdir, f), base, read_set) for f in sorted(os.listdir(rfdir)) if f.endswith(".diff")] if os.path.isdir(rfdir) else []
+        # the thorough tier replays the two newest rounds of refactoring sets (tools/silent_check.py
+        # replays all of them); VERIF_REFACTOR_ROUNDS=all or a comma list changes that
+        rounds = os.environ.get("VERIF_REFACTOR_ROUNDS", "RI,RJ")
+        names = [f for f in sorted(os.listdir(rfdir)) if f.endswith(".diff") and (rounds == "all" or f.split("_")[0] in rounds.split(","))] if os.path.isdir(rfdir) else []
+        rfs = [ex.submit(_refactor, prop, repo, f[:-5], os.path.join(rfdir, f), base, read_set) for f in names]
         out["must_fire"] = [f.result() for f in futs]
         out["twin"] = tw.result()
         out["refactorings"] = [f.result() for f in rfs]
